@@ -28,6 +28,9 @@ type ClassModel struct {
 
 	// methodList - stores all available methods definition of class
 	methodList map[string]*Function
+
+	// origin - the class model this one was derived from (see Derive); nil for an original
+	origin *ClassModel
 }
 
 // NewClassModel - create new empty r.ClassRef
@@ -56,6 +59,23 @@ func (cm *ClassModel) Construct(params []r.Element) (r.Element, error) {
 	// initialize a new object - an instance of class with no props set
 	instance := NewObject(cm, r.ElementMap{})
 	return cm.constructor(instance, params)
+}
+
+// Derive - a view of a class model that is shared between executions (a class registered by
+// a library): it shares the name, properties and methods of cm and counts as the same class,
+// but carries a constructor of its own, so that 如何新建X？ in one program does not change what
+// 新建X does in other executions of the process.
+func (cm *ClassModel) Derive() *ClassModel {
+	derived := *cm
+	derived.origin = cm.root()
+	return &derived
+}
+
+func (cm *ClassModel) root() *ClassModel {
+	if cm.origin != nil {
+		return cm.origin
+	}
+	return cm
 }
 
 // //// GETTERS //////
